@@ -82,12 +82,31 @@ fn run_case(_kind: &str, idx: u64, rng: &mut Rng, mon: &mut Mon, _tier: Tier) {
     if cell.safety.to_robot_default > 0.02 {
         cell.safety.to_robot_default = 0.008;
     }
-    let mut robot = cell.build();
+    // a quarter of the robots has a parallelogram (J2 drives J3) on top of the stack: a single-joint move
+    // of J2 then also moves the links behind J3 relative to the upper arm
+    let with_para = rng.bool(0.25);
+    let build = |cell: &Cell| {
+        let mut r = cell.build();
+        if with_para {
+            r.kinematics = std::sync::Arc::new(rs_opw_kinematics::parallelogram::Parallelogram { robot: r.kinematics.clone(), scaling: 1.0, driven: 1, coupled: 2 });
+        }
+        r
+    };
+    if with_para {
+        mon.count("cells_with_parallelogram");
+    }
+    // a planner that clamps its step vectors to the limits produces from/to entries equal to the current value
+    if rng.bool(0.1) {
+        let j = rng.usize(6);
+        if rng.bool(0.5) { from[j] = initial[j] } else { to[j] = initial[j] }
+        mon.count("cases_with_a_replacement_equal_to_the_current_value");
+    }
+    let mut robot = build(&cell);
     // obstacles that also hit the initial posture are removed (the API presupposes a free start)
     while robot.collides(&initial) && !cell.env.is_empty() {
         cell.env.pop();
         cell.safety.special.retain(|((a, b), _)| *a < ENV_START_IDX + cell.env.len() && *b < ENV_START_IDX + cell.env.len());
-        robot = cell.build();
+        robot = build(&cell);
         mon.count("obstacles_removed_because_they_hit_the_initial_posture");
     }
     if robot.collides(&initial) {
